@@ -12,6 +12,15 @@ import warnings
 from collections import Counter
 
 MAX_ROOT_CAUSES = 4
+CASE_TIMEOUT_S = int(__import__("os").environ.get("VF_CASE_TIMEOUT", "120"))      # per-case watchdog (a hang is recorded, not asserted)
+
+
+class CaseTimeout(BaseException):
+    pass
+
+
+def _alarm(signum, frame):
+    raise CaseTimeout()
 
 
 class ShardState:
@@ -32,6 +41,7 @@ class ShardState:
         self.excluded = set()
         self.excluded_count = 0
         self.last_fail = None
+        self.timeouts = []
 
     def execute(self, case):
         from vf.core import (Ctx, Inconclusive, Violation, case_hash,
@@ -46,8 +56,20 @@ class ShardState:
         ctx = Ctx()
         self.evaluations += 1
         v = None
+        import signal
+        signal.signal(signal.SIGALRM, _alarm)
+        signal.setitimer(signal.ITIMER_REAL, CASE_TIMEOUT_S)
         try:
-            self.sub.fn(case, ctx)
+            try:
+                self.sub.fn(case, ctx)
+            finally:
+                signal.setitimer(signal.ITIMER_REAL, 0)
+        except CaseTimeout:
+            # wall-clock is never a correctness signal: counted as
+            # inconclusive, the case is kept for inspection
+            self.inconclusive += 1
+            ctx.event('case_timeout')
+            self.timeouts.append(jcase)
         except Violation as exc:
             v = exc
         except Inconclusive:
@@ -143,6 +165,7 @@ def run_shard(prop, subname, shard, ncases, seed, budget, tier='quick'):
         'known_witness': st.known_witness,
         'excluded_repeat': st.excluded_count, 'violations': violations,
         'harness_error': harness_error, 'wall_s': time.time() - t0,
+        'case_timeouts': st.timeouts[:3],
     }
 
 
